@@ -185,7 +185,8 @@ def record_ops(flavour, fmt):
 
 
 def run_scenario(scn):
-    flavour, fmt, tick_at, op_at = scn
+    flavour, fmt, tick_at, op_at = scn[:4]
+    second = scn[4] if len(scn) > 4 else None  # a second transient fault, in the save of the following tick
     install_shims()
     viols = []
     replay = {"kind": "fault", "check": PROP, "scenario": list(scn)}
@@ -243,6 +244,31 @@ def run_scenario(scn):
                         stop_err = run.stop()
                         if stop_err is not None:
                             viols.append(Violation(PROP, f"stop-raises-after-failed-save|{where}|{type(stop_err).__name__}", f"{scn}: stop() raised {type(stop_err).__name__}: {short(str(stop_err))}", replay))
+                        return viols, reached
+            elif second is not None and t == tick_at + 1 and tick_at >= 0:
+                fs = FaultFS("fail", second)
+                err = run.tick(fs)
+                op = fs.ops[second] if second < len(fs.ops) else ("?",)
+                where = f"{flavour}|second-fault|{op[0]}"
+                if err in ("no-timer", "no-save-started"):
+                    viols.append(Violation(PROP, f"schedule-stopped|{flavour}|later-tick", f"{scn}: tick {t}: {err}", replay))
+                    break
+                loaded = load_copy(run.dir, fmt)
+                if not fs.injected:
+                    if loaded != current:
+                        viols.append(Violation(PROP, f"next-save-not-current|{flavour}|after-fault", f"{scn}: after tick {t} a fresh load does not yield the then-current state", replay))
+                    saved_tree = current
+                else:
+                    reached = True
+                    if loaded != saved_tree and loaded != current:
+                        viols.append(Violation(PROP, f"file-not-loadable-after-failed-save|{where}", f"{scn}: after a second consecutive save failed at {describe(op)} a fresh load yields neither the previously saved nor the current state", replay))
+                    if loaded == current:
+                        saved_tree = current
+                    if not run.gw.tasks.persistence.need_save:
+                        viols.append(Violation(PROP, f"dirty-flag-cleared|{where}", f"{scn}: second consecutive save failed at {describe(op)} but the state is no longer marked unsaved", replay))
+                    if not run.schedule_alive():
+                        viols.append(Violation(PROP, f"schedule-stopped|{where}", f"{scn}: after the second consecutive failed save no further periodic save is armed", replay))
+                        run.stop()
                         return viols, reached
             else:
                 err = run.tick(None)
@@ -302,6 +328,21 @@ def scenarios(tier):
                     idxs = [i for i, op in enumerate(ops) if op[0] != "write" or i % 6 == 0]
                 for k in idxs:
                     scns.append((flavour, fmt, t, k))
+            # two consecutive failing saves (tick 1 and tick 2): first fault at one operation of each kind, second fault
+            # at every operation index the following save can have (its log depends on what the first fault left behind)
+            ops = logs[1]
+            firsts = []
+            kinds = set()
+            for i, op in enumerate(ops):
+                key = (op[0], os.path.basename(str(op[1])) if len(op) > 1 else "")
+                if key not in kinds:
+                    kinds.add(key)
+                    firsts.append(i)
+            longest = max(len(x) for x in logs) + 2
+            seconds = range(longest) if tier == "thorough" else sorted(set(firsts) | set(range(longest - 8, longest)) | set(range(0, 4)))
+            for k in firsts:
+                for k2 in seconds:
+                    scns.append((flavour, fmt, 1, k, k2))
     cleanup_process_scratch()
     return scns, oplens
 
